@@ -40,7 +40,7 @@ def preload():
     cirqstub.self_check()
 
 
-def h_vqe_rdm(env, opts, patt, sum_spin, canary=False, trace_mode="ne"):
+def h_vqe_rdm(env, opts, patt, sum_spin, canary=False, trace_mode="ne", definition=False):
     """trace_mode: 'ne' - the state conserves N (JW, closed shell): traces are N and N(N-1);  'state' - the traces equal <N> and
     <N(N-1)> of the prepared state (word-by-word Trotterised open-shell UCCSD under BK leaves the N sector: the property only
     demands integer traces 'whenever the state conserves it');  'skip' - scBK of such a state: N is not defined on the reduced
@@ -82,7 +82,7 @@ def h_vqe_rdm(env, opts, patt, sum_spin, canary=False, trace_mode="ne"):
         with sym_alloc(env):
             e = s.energy_estimation(th)
             r1, r2 = s.get_rdm_uhf(th) if getattr(molecule, "uhf", False) else s.get_rdm(th, sum_spin=sum_spin)
-            if trace_mode == "state":
+            if trace_mode == "state" or definition:
                 nq_ = s.ansatz.circuit.width
                 amps = c08.decode_amplitudes(c08.full_circuit_state(s, nq_), molecule.n_active_sos, opts.get("qubit_mapping", "jw"),
                                              opts.get("up_then_down", False))
@@ -121,6 +121,43 @@ def h_vqe_rdm(env, opts, patt, sum_spin, canary=False, trace_mode="ne"):
         env.check_eq(tot, 1, "decoded determinants carry the whole norm")
         env.check_eq(tr, n1, "trace of the 1-RDM == <N> of the prepared state")
     env.check_vec_eq([r1[i, j] for i in range(n) for j in range(n)], [R.n_conj(r1[j, i]) for i in range(n) for j in range(n)], "1-RDM Hermitian")
+    if definition:
+        # entry by entry against the DEFINITION on the decoded state: D[p,q] = <a+_p a_q>, G[p,s,q,r] = <a+_p a+_q a_r a_s>
+        # (spin-orbital indices, or summed over the spin labels of each spatial index); symbolic integrals, so every spin-allowed
+        # term of the Hamiltonian is present
+        n_so = molecule.n_active_sos
+
+        def expect(term):
+            tot_ = R.C(0)
+            for f, a in amps.items():
+                cond, par, g = fock.apply_monomial([bool(x) for x in f], term)
+                if not cond:
+                    continue
+                b = amps.get(tuple(int(x) for x in g))
+                if b is None:
+                    continue
+                v = R.n_conj(b) * a
+                tot_ = tot_ - v if par else tot_ + v
+            return tot_
+        same = lambda *ix: len({i % 2 for i in ix}) == 1       # noqa
+        if sum_spin:
+            want1 = [[R.C(0)] * n for _ in range(n)]
+            for p_, q_ in itertools.product(range(n_so), repeat=2):
+                if same(p_, q_):
+                    want1[p_ // 2][q_ // 2] = want1[p_ // 2][q_ // 2] + expect(((p_, 1), (q_, 0)))
+        else:
+            want1 = [[expect(((p_, 1), (q_, 0))) if same(p_, q_) else R.C(0) for q_ in range(n)] for p_ in range(n)]
+        env.check_vec_eq([r1[i, j] for i in range(n) for j in range(n)], [want1[i][j] for i in range(n) for j in range(n)],
+                         f"1-RDM entry by entry == <a+_p a_q> of the prepared state ({'spin-summed' if sum_spin else 'spin-orbital'})")
+        want2_ = {}
+        for p_, q_, r_, s_ in itertools.product(range(n_so), repeat=4):
+            if p_ == q_ or r_ == s_ or not (same(p_, s_) and same(q_, r_)):
+                continue
+            key_ = (p_ // 2, s_ // 2, q_ // 2, r_ // 2) if sum_spin else (p_, s_, q_, r_)
+            want2_[key_] = want2_.get(key_, R.C(0)) + expect(((p_, 1), (q_, 1), (r_, 0), (s_, 0)))
+        idx_ = list(itertools.product(range(n), repeat=4))
+        env.check_vec_eq([r2[i] for i in idx_], [want2_.get(i, R.C(0)) for i in idx_],
+                         f"2-RDM entry by entry: G[p,s,q,r] == <a+_p a+_q a_r a_s> of the prepared state ({'spin-summed' if sum_spin else 'spin-orbital'})")
     tr2 = R.C(0)
     for i in range(n):
         for j in range(n):
@@ -357,6 +394,18 @@ def shapes(tier, seed):
     out.append(Shape("vqe_rdm/sym2/jw/refstate-override", h_vqe_rdm,
                      dict(opts=dict(molecule_key="SYM2", qubit_mapping="jw", up_then_down=False, ansatz=BuiltInAnsatze.UCCSD, ref_state=[1, 0, 0, 1]),
                           patt="ss", sum_spin=True), modules=MODS, max_paths=32))
+    # entry-by-entry definition of the RDMs, also for states with COMPLEX amplitudes (phase gates in the reference circuit)
+    from tangelo.linq import Circuit as _C, Gate as _G
+    # (|1000> + i|0010>)/sqrt2 (x) one beta electron: the one-body element <a+_0 a_2> of the reference is i/2
+    # (the ansatz circuit adds its own X0 X1 after this reference: (|0000> + i|1010>)/sqrt2 becomes (|1100> + i|0110>)/sqrt2)
+    cref = _C([_G("H", 0), _G("CNOT", 2, 0), _G("S", 2), _G("T", 3)], n_qubits=4)
+    for nm_, mp_, ss_, rs_ in (("jw/sumspin=1", "jw", True, None), ("jw/sumspin=0", "jw", False, None), ("bk/sumspin=1", "bk", True, None),
+                               ("jw/complex-ref/sumspin=1", "jw", True, cref), ("jw/complex-ref/sumspin=0", "jw", False, cref)):
+        o_ = dict(molecule_key="SYM2", qubit_mapping=mp_, up_then_down=False, ansatz=BuiltInAnsatze.UCCSD)
+        if rs_ is not None:
+            o_["ref_state"] = rs_
+        out.append(Shape(f"vqe_rdm/definition/sym2/{nm_}", h_vqe_rdm, dict(opts=o_, patt="ss", sum_spin=ss_, trace_mode="state", definition=True),
+                         modules=MODS, max_paths=32))
     out.append(Shape("canary/vqe_rdm", h_vqe_rdm, dict(opts=dict(molecule_key="SYM2", qubit_mapping="jw", up_then_down=False, ansatz=BuiltInAnsatze.UCCSD),
                                                         patt="ss", sum_spin=True, canary=True), modules=MODS, max_paths=32, canary=True))
     from harness.c04 import AUX_MOLS
